@@ -162,7 +162,59 @@ def gpg_grid():
     return out
 
 
+def gpg_pair_grid():
+    """Threshold 2 over two authorised ids of ONE master (master / subkeys in any combination), with a link
+    by each signing subkey (and the master): one functionary, must be rejected; with an extra plain
+    functionary: accepted."""
+    out = []
+    m = W.gpg_key("two_subs")
+    ids = [m.keyid] + [s for s in (m.pub.get("subkeys") or {}) if s in W.SIGNING_SUBKEYS]
+    for a1 in ids:
+        for a2 in ids:
+            if a1 != a2:
+                for extra in (False, True):
+                    out.append(("pair", a1, a2, extra))
+    return out
+
+
+def gen_pair_case(rng, root, combo):
+    _tag, a1, a2, extra = combo
+    ch = scen.gen_chain(rng, root, n_steps=1, n_insp=0, thresholds=(1,), max_funcs=1, fmt_mode="mixed")
+    step = ch.steps[0]
+    for k in step["keys"]:
+        ch.layout_keys.pop(k.keyid, None)
+    m = W.gpg_key("two_subs")
+    ch.layout_keys[m.keyid] = m.pub
+    keystore = {m.keyid: m.pub}
+    subs = [s for s in (m.pub.get("subkeys") or {}) if s in W.SIGNING_SUBKEYS]
+    signers = [m] + [W.gpg_key("two_subs", s) for s in subs]
+    pubkeys = [a1, a2]
+    links, files, mains = [], [], set()
+    for sg in signers:
+        main = authorised_main(pubkeys, keystore, sg.keyid, sg, "metablock")
+        links.append(scen.link_spec(sg, "metablock", step["name"], step["materials"], step["products"], signer=sg, kid=sg.keyid))
+        files.append({"name_kid": sg.keyid[:8], "signer": sg.keyid[:8], "signer_kind": "gpg", "tamper": None, "fmt": "metablock",
+                      "wrong_name": False, "counts_for": main})
+        if main:
+            mains.add(main)
+    if extra:
+        pk = [k for k in W.pool() if k not in ch.owners][0]
+        ch.layout_keys[pk.keyid] = pk.pub
+        pubkeys = pubkeys + [pk.keyid]
+        links.append(scen.link_spec(pk, "metablock", step["name"], step["materials"], step["products"]))
+        files.append({"name_kid": pk.keyid[:8], "signer": pk.keyid[:8], "signer_kind": pk.kind, "tamper": None, "fmt": "metablock",
+                      "wrong_name": False, "counts_for": pk.keyid})
+        mains.add(pk.keyid)
+    step["pubkeys"], step["threshold"], step["links"] = pubkeys, 2, links
+    desc = {"gpg": True, "gpg_mode": "pair_grid", "grid": {"authorised": [a1[:8], a2[:8]], "extra_plain_functionary": extra},
+            "files": files, "threshold": 2, "good_functionaries": len(mains), "expected_accept": len(mains) >= 2,
+            "focus": step["name"]}
+    return ch, desc
+
+
 def gen_grid_case(rng, root, combo):
+    if combo[0] == "pair":
+        return gen_pair_case(rng, root, combo)
     mname, a, kid, sid = combo
     ch = scen.gen_chain(rng, root, n_steps=1, n_insp=0, thresholds=(1,), max_funcs=1, fmt_mode="mixed")
     step = ch.steps[0]
@@ -252,7 +304,7 @@ def shard(seed, idx, n, tier):
     for j in range(n):
         one_case(rng, res, gpg=j < ngpg)
     if W.gpg_available():
-        grid = gpg_grid()
+        grid = gpg_grid() + gpg_pair_grid()
         for g in range(idx, len(grid), 16):
             one_case(rng, res, True, combo=grid[g])
             res.count("gpg_grid")
